@@ -266,7 +266,11 @@ func (c *connection) recv(conn net.Conn, connDone chan bool) {
 func (c *connection) close(conn net.Conn) {
 	c.connLock.Lock()
 	defer c.connLock.Unlock()
-	c.isClosed = true
+	// a goroutine of an earlier connection may end after a reconnect: closing that stale
+	// connection must not mark the current, healthy one as closed
+	if conn == c.conn {
+		c.isClosed = true
+	}
 	if conn != nil {
 		_ = conn.Close()
 	}
